@@ -47,10 +47,10 @@ ENTRIES = [
     dict(id='F5c', property='C05', status='fixed', commit='accbe18', bucket='C05/error',
          what="errors with code 0 / empty message could not be constructed or round-tripped",
          witness={'kind': 'error', 'error': {'cls': 'JsonRpcError', 'code': 0, 'message': '', 'data': {'absent': True}}, 'error_cls': 'JsonRpcError'}),
-    dict(id='F18', property='C06', status='fixed', commit='ed3c505', bucket='C06/batch_response/accepted-invalid/both-result-and-error',
+    dict(id='F19', property='C06', status='fixed', commit='ed3c505', bucket='C06/batch_response/accepted-invalid/both-result-and-error',
          what="BatchResponse.from_json accepted a batch-level error object that also carried a result",
          witness={'kind': 'batch_response', 'value': {'jsonrpc': '2.0', 'id': None, 'result': 0, 'error': {'code': -32600, 'message': 'x'}}}),
-    dict(id='F19', property='C05', status='fixed', commit='47474f2', bucket='C05/batch_response/error-class',
+    dict(id='F20', property='C05', status='fixed', commit='47474f2', bucket='C05/batch_response/error-class',
          what="errors of batch response elements ignored the supplied error_cls",
          witness={'kind': 'batch_response', 'responses': [{'id': 1, 'error': {'cls': 'JsonRpcError', 'code': 12345, 'message': 'm', 'data': {'absent': True}}}], 'error_cls': 'PlainBase'}),
 ]
@@ -61,6 +61,12 @@ if os.path.exists(extra):
     spec = importlib.util.spec_from_file_location('kf_more', extra)
     mod = importlib.util.module_from_spec(spec); spec.loader.exec_module(mod)
     ENTRIES += mod.ENTRIES
+
+for e in ENTRIES:
+    if e['status'] == 'fixed':
+        e['record'] = f"fixed: property={e['property']} {e['commit']} {e['what']}"
+    else:
+        e['record'] = f"known: property={e['property']} {e['id']} {e['what']}"
 
 with open(os.path.join(VERIF, 'known_findings.json'), 'w') as f:
     json.dump(ENTRIES, f, indent=1)
